@@ -20,6 +20,7 @@ func init() {
 			ruleV4(c)
 			ruleV5(c)
 			ruleV6(c)
+			ruleV7(c)
 		},
 		explanation: "Round-trip equality is a statement about values and is not decided.  Decided are the tables and shapes it needs: for each NRI/OCI conversion pair the From and To field maps are mutually inverse relations with agreeing field names, cover every field of the NRI message (frozen exceptions with reasons), and pass optional scalars as pointers through the optional constructors / Get() so that unset and zero stay distinct; every call site of an optional constructor passes a type the constructor's own type switch accepts (anything else silently becomes unset); LinuxResources.Copy stores no pointer, map or slice taken from the receiver into the result and copies every listed field; the event-mask parser and printer tables are inverse, total on the 13 events and disjoint from the parser's keywords; the env separator agrees across its four users.",
 		notDecided: []string{
@@ -680,6 +681,65 @@ func ruleV5(c *Ctx) {
 		}
 		c.ok("V5", key, parse.Pos(), bad == "", what, bad)
 	}
+	// the printer's loop visits every defined event
+	pr := m.method(pkgAPI, "EventMask", "PrettyString")
+	var minEv, maxEv int64 = 1 << 30, 0
+	for en, v := range evs {
+		if en == "Event_UNKNOWN" || en == "Event_LAST" {
+			continue
+		}
+		if v < minEv {
+			minEv = v
+		}
+		if v > maxEv {
+			maxEv = v
+		}
+	}
+	okLoop := false
+	detail := "no loop over the event values found in PrettyString"
+	for _, b := range pr.Blocks {
+		for _, in := range b.Instrs {
+			ph, ok := in.(*ssa.Phi)
+			if !ok {
+				continue
+			}
+			var start int64 = -1
+			for _, e := range ph.Edges {
+				if k, ok := constInt(e); ok {
+					start = k
+				}
+			}
+			if start < 0 {
+				continue
+			}
+			for _, r := range *ph.Referrers() {
+				bo, ok := r.(*ssa.BinOp)
+				if !ok || bo.X != ssa.Value(ph) {
+					continue
+				}
+				k, ok := constInt(bo.Y)
+				if !ok {
+					continue
+				}
+				var last int64 = -1
+				switch bo.Op {
+				case token.LEQ:
+					last = k
+				case token.LSS:
+					last = k - 1
+				}
+				if last < 0 {
+					continue
+				}
+				if start <= minEv && last >= maxEv {
+					okLoop = true
+				} else {
+					detail = fmt.Sprintf("the printer's loop runs over %d..%d but the defined events are %d..%d: masks containing an event outside the loop print as unknown(...) and do not parse back", start, last, minEv, maxEv)
+				}
+			}
+		}
+	}
+	c.ok("V5", "printer-loop", pr.Pos(), okLoop, "PrettyString's loop covers every defined event", detail)
 	// no extra parser names
 	for _, n := range sortedKeysI(bits) {
 		found := false
@@ -701,4 +761,116 @@ func sortedKeysI(m map[string]int64) []string {
 	}
 	sort.Strings(ks)
 	return ks
+}
+
+// ruleV7: the optional constructors and Get() pass the value through unchanged.
+func ruleV7(c *Ctx) {
+	m := c.M
+	c.rule("V7", "exact value: each optional constructor stores into the wrapper's Value exactly its argument (for every accepted argument type: the value itself, the pointee, or the other wrapper's Value) through conversions only — no method call or arithmetic on it — and each Get() returns a pointer to exactly the wrapper's Value", 16)
+	pureFrom := func(v ssa.Value, srcOK func(ssa.Value) bool) (bool, string) {
+		seen := map[ssa.Value]bool{}
+		var walk func(x ssa.Value, d int) (bool, string)
+		walk = func(x ssa.Value, d int) (bool, string) {
+			if x == nil || d > 12 {
+				return false, "too deep"
+			}
+			if srcOK(x) {
+				return true, ""
+			}
+			if seen[x] {
+				return true, ""
+			}
+			seen[x] = true
+			switch y := x.(type) {
+			case *ssa.Phi:
+				for _, e := range y.Edges {
+					if ok, why := walk(e, d+1); !ok {
+						return false, why
+					}
+				}
+				return true, ""
+			case *ssa.Convert:
+				return walk(y.X, d+1)
+			case *ssa.ChangeType:
+				return walk(y.X, d+1)
+			case *ssa.UnOp:
+				if y.Op == token.MUL {
+					if al, ok := y.X.(*ssa.Alloc); ok {
+						for _, r := range *al.Referrers() {
+							if st, ok := r.(*ssa.Store); ok && st.Addr == ssa.Value(al) {
+								if ok, why := walk(st.Val, d+1); !ok {
+									return false, why
+								}
+							}
+						}
+						return true, ""
+					}
+					return walk(y.X, d+1)
+				}
+				return false, "operator " + y.Op.String()
+			case *ssa.FieldAddr:
+				return walk(y.X, d+1)
+			case *ssa.Extract:
+				return walk(y.Tuple, d+1)
+			case *ssa.TypeAssert:
+				return walk(y.X, d+1)
+			case *ssa.Const:
+				return true, "" // zero initial value of the local
+			case *ssa.Call:
+				return false, "a call of " + m.calleeName(y.Common())
+			case *ssa.BinOp:
+				return false, "arithmetic (" + y.Op.String() + ")"
+			}
+			return false, fmt.Sprintf("%T", x)
+		}
+		return walk(v, 0)
+	}
+	for _, n := range optionalCtors {
+		f := m.fn(pkgAPI, n)
+		bad := "the constructor does not store a Value"
+		for _, fl := range m.fieldFlows(f) {
+			if fl.Path != "Value" {
+				continue
+			}
+			ok, why := pureFrom(fl.Val, func(x ssa.Value) bool { return x == ssa.Value(f.Params[0]) })
+			if ok {
+				bad = ""
+			} else {
+				bad = "the stored Value is computed from the argument through " + why + ": the wrapper does not hold exactly the value it was given"
+			}
+		}
+		c.ok("V7", "ctor/"+n, f.Pos(), bad == "", "optional constructor "+n+" stores exactly its argument", bad)
+		// Get
+		wt := "Optional" + n
+		g := m.methodOpt(pkgAPI, wt, "Get")
+		if g == nil {
+			c.violate("V7", "get/"+wt, f.Pos(), wt+" has a Get method", "method not found")
+			continue
+		}
+		badG := ""
+		for _, r := range returnsOf(g) {
+			for _, v := range returnValues(r, 0) {
+				if isNilConst(v) {
+					continue
+				}
+				al, ok := v.(*ssa.Alloc)
+				if !ok {
+					badG = "Get does not return a pointer to a local copy of the value"
+					continue
+				}
+				for _, rr := range *al.Referrers() {
+					if st, ok := rr.(*ssa.Store); ok && st.Addr == ssa.Value(al) {
+						okp, why := pureFrom(st.Val, func(x ssa.Value) bool {
+							fa, ok := x.(*ssa.FieldAddr)
+							return ok && fa.X == ssa.Value(g.Params[0]) && fieldName(fa.X.Type(), fa.Field) == "Value"
+						})
+						if !okp {
+							badG = "the value returned is computed through " + why
+						}
+					}
+				}
+			}
+		}
+		c.ok("V7", "get/"+wt, g.Pos(), badG == "", wt+".Get returns exactly the wrapped value", badG)
+	}
 }
